@@ -121,7 +121,7 @@ def _task(X):
            'content_params': set(), 'problems': {}, 'raise_sites': set(), 'caught': set(), 'dict_reads': set(),
            'dict_other': set(), 'stores_per_pair': set(), 'key_compared': set(), 'sub_data': set(), 'sub_flags': set(),
            'order': set(), 'returned': set(), 'newline_checked': set(), 'version': set(), 'format': set(),
-           'yields_per_path': set(), 'le_values': set(), 'decode_enc': set(), 'util_encoding': set(), 'record_sharing': set(), 'decode_unit': set()}
+           'yields_per_path': set(), 'le_values': set(), 'decode_enc': set(), 'util_encoding': set(), 'record_sharing': set(), 'decode_unit': set(), 'split_keep_ends': set()}
     paths0, _ex0 = H.paths(pre + [Script(X, options='none')], max_paths=30000, det_prefix=len(hist))
     for p in paths0:
         ys0 = [e for e in p.events if e.kind == 'yield']
@@ -227,6 +227,15 @@ def _task(X):
                     same = a_ is enc_local or (is_concrete(a_) and is_concrete(enc_local) and concrete(a_) == concrete(enc_local))
                     out['util_encoding'].add((e2.data['callee'].name, 'same' if same else
                                               'other:%s' % (concrete(a_) if is_concrete(a_) else getattr(a_, 'name', '?'),)))
+        # how the content is split into lines when it is rebuilt (indentation): only the keep-ends mode re-joins to the data
+        rebuilt = False
+        for k_, v_ in rec.items.items():
+            if isinstance(v_, Unk) and any(x.src and x.src[0] in ('summary', 'summary-elem') and 'split_lines' in str(x.src[1]) for x in src_chain(v_)):
+                rebuilt = True
+        for e2 in evs:
+            if rebuilt and e2.kind == 'summary-call' and e2.data['callee'].name == 'split_lines' and cf in e2.stack:
+                ke = e2.data['args'].get('keep_ends')
+                out['split_keep_ends'].add(repr(concrete(ke)) if is_concrete(ke) else 'unknown')
         # indentation stripping: regex sub events inside the content function
         subs = [e for e in evs if e.kind == 'regex-apply' and e.data['mode'] == 'sub' and cf in e.stack]
         decs = [e for e in evs if e.kind == 'decode' and cf in e.stack]
